@@ -61,6 +61,10 @@ CLAIMED = {
   text='Coq theorems (Props/C20.v) over a model of dump_to_sql + tableschema_sql.Writer (table = list of rows; batched INSERT buffer; Bloom filter; UPDATE .. WHERE keys): rewrite leaves exactly the dumped rows and append the previous rows plus the dumped rows for every batch size; update without the filter equals the fold of upsert; update WITH the filter equals the fold of upsert for every false-positive behaviour of the filter, every batch size and every existing table (invariant: every stored row\'s key is known to the filter; virtual table = flushed ++ buffered); any sequence of dumps is the fold of the per-mode specification; rows continue downstream in input order. Correspondence by vm_compute: after every dump of generated histories (1-5 dumps, modes, explicit/primary keys incl. composite and null keys, batch 1/2/1000, filter on/off, repeated keys, specs carrying update_keys in every mode) the real SQLite table (SELECT *) is compared, as a multiset, with the model and with the specification; updated flags compared; direct oracle = the mode semantics in Python.',
   note='Partial: SQLite, SQLAlchemy and the third-party Writer are modelled, not verified; Python equality of key tuples is assumed to be an equivalence (hypothesis); null keys match null keys (IS NULL), as observed; array/object columns are a known finding (rows jsonized in place).',
   technique='Coq proof (buffer/filter invariant) + vm_compute correspondence against real SQLite + direct oracle', ref='5/C20'),
+ 'C18': dict(
+  text='Coq theorems (Props/C18.v) over the interleaving transition system of parallelize (producer, N workers, fetcher, collector; three FIFO queues; one transition per queue operation), for every N, input and schedule: in every reachable state the rows in the system are exactly the input rows (none lost, none duplicated); every delivered row has the row function applied exactly when the predicate selects it; every operation decreases a measure, so no schedule exceeds 6*(rows+workers) operations. Tie: the unchanged producer/work/fetcher/fork run with mp.Process, mp.Queue, queue.Queue and threading.Thread replaced in the module namespace by scheduler-controlled fakes; every observed trace (exhaustive for the smallest configurations, seeded random up to 4 workers x 8 rows) must be a path of the model\'s fire function ending in a terminated state with the same delivered sequence; direct oracle: ids delivered exactly once, row function applied once iff selected, no deadlock.',
+  note='Partial: the theorems proved so far are safety (conservation, flags) and boundedness of every schedule; absence of deadlock and "terminated implies everything delivered" are checked on every explored schedule (model: final state has no enabled label and c_done) but not yet proved for all N (invariant sketched in DESIGN.md). Queue FIFO order/atomicity, pickling and process start-up/join are runtime behaviour the model does not exhibit; real processes are exercised in the thorough tier only.',
+  technique='Coq proof over interleaving LTS + scheduler-driven trace validation of the real functions + exhaustive/random schedule exploration', ref='5/C18'),
 }
 
 NOT_YET = 'check not built yet (work in progress; will be claimed once its Coq model, theorems and correspondence check exist)'
